@@ -14,7 +14,7 @@ CLAIMED = {
         "same operators (TraceCache.tla): result and all non-perturbing observations after every operation.",
    note="Trusted: TLC, JSON trace encoding, the ~100-line driver that calls the public cache API. Disk ctimes are spaced by the "
         "harness. Multi-process interleavings are explored only at lock granularity (CacheConc part)."
-        " None (NoneV) is among the stored values.",
+        " None (NoneV) is among the stored values; so is a value that cannot be serialised (putbad: refused as a no-op or kept by reference), and a directory cleared by another DiskCache object (wipe).",
    technique="TLA+ model (Cache.tla) checked by TLC; TLC-exported op sequences replayed on the real classes; recorded "
              "histories validated by TLC trace spec"),
  "C02": dict(
@@ -66,7 +66,8 @@ CLAIMED = {
         "different numeric type, array typecode / deque.maxlen / default_factory, pickle-fallback objects with differing "
         "pickles, pickle bytes of as-is frozensets."
         " Also: memoize call keys (Call values, binding rules, MemoTotal/MemoSound/MemoComplete; universe closed under packing f(t, d) / f(*t, **d))."
-        " Also: the representation of pandas labels (RangeIndex vs materialised) as an encoder attribute that Eq ignores.",
+        " Also: the representation of pandas labels (RangeIndex vs materialised) as an encoder attribute that Eq ignores."
+        " Counters are signed multisets (zero counts: a don't-care of ==; negative counts: content).",
    technique="TLA+ value/key model checked by TLC; universe export; pairwise conformance in two interpreters"),
  "C05": dict(
    category="model_checking", design_ref="6 C05",
@@ -80,7 +81,8 @@ CLAIMED = {
         "resumed results equal the denotation and nothing completely stored is recomputed.",
    note="Crash = death of the sequential process between OS-level operations (short writes included); no fsync/reordering. "
         "Stored = unpicklable file, observed independently of pipefunc. Process-pool runs are not crashed."
-        " Resumed runs also go through real thread/process pools; forked children run in their own process group (stragglers are killed).",
+        " Resumed runs also go through real thread/process pools; forked children run in their own process group (stragglers are killed)."
+        " (4) StoreRace.tla: N concurrent stores of ONE path (a left-over pool task of the interrupted run and the resumed run): TLC shows a shared temporary name violates NoStoreFails / FinalNeverTorn and a private one satisfies them; every schedule exported by MC_StoreRace is driven through the real dump() / FileArray.dump (the stored value blocks inside its own pickling) and validated by TraceStoreRace. Single results that are themselves tuples are part of the histories.",
    technique="TLA+ crash model checked by TLC; fs-trace validation; exhaustive crash-point replay validated by TLC"),
  "C08": dict(
    category="model_checking", design_ref="6 C08",
@@ -93,7 +95,8 @@ CLAIMED = {
         "returned ASTs for open outcomes are judged by TLC.",
    note="Trusted: TLC, the token renderer (tokens -> string with whitespace). Don't-cares: duplicate array names, repeated "
         "index inside one array, rank-0 arrays, text outside the grammar (rejected or accepted as well-formed)."
-        " Also: MapSpec objects over histories of operations (LawStep: answers independent of earlier calls on the object or its ancestor) and arrow-count mutants (LawArrow).",
+        " Also: MapSpec objects over histories of operations (LawStep: answers independent of earlier calls on the object or its ancestor) and arrow-count mutants (LawArrow)."
+        " shape() is judged as called with MAPPINGS: every insertion order of the input / internal shape dicts (ShapeNamed, LawShapeByName).",
    technique="TLA+ MapSpec semantics with laws checked by TLC; universe export compared against MapSpec"),
  "C04": dict(
    category="model_checking", design_ref="6 C04",
@@ -121,7 +124,8 @@ CLAIMED = {
    note="Trusted: TLC, the annotation materialiser (exec'd signatures). Forward references, numpy dtypes and user generics "
         "are outside the grammar."
         " Also: consumers with several array inputs (NetEdges, LawViaLocal, LawEdgewise; 43 sibling shapes)."
-        " Also: other ways a parameter gets its value (signature / PipeFunc default / bound): LawDefaultKeepsEdges, LawBoundCutsOwnEdge.",
+        " Also: other ways a parameter gets its value (signature / PipeFunc default / bound): LawDefaultKeepsEdges, LawBoundCutsOwnEdge."
+        " Annotated metadata of every kind (hashable or not) is silent (LawMetadataSilent*); every third pipeline is built by add() one function at a time.",
    technique="TLA+ subtype relation checked by TLC; universe export compared against is_type_compatible and Pipeline()"),
  "C20": dict(
    category="model_checking", design_ref="6 C20",
@@ -133,7 +137,8 @@ CLAIMED = {
         "snapshot comparison of every operand; recorded histories are validated by TLC (TraceResources.tla).",
    note="Don't-cares: with_defaults across exclusive fields may raise, extra_args/parallelization_mode merging, ties between "
         "equal sizes/durations, combine_max result fields the property does not name."
-        " Also: explicit wall-time field weights and a format-free ordering law over time strings around the day boundaries (TimeXAdequate checked by TLC).",
+        " Also: explicit wall-time field weights and a format-free ordering law over time strings around the day boundaries (TimeXAdequate checked by TLC)."
+        " to_slurm_options is judged as a token sequence (RequiredTokens, LawSlurmNoMerge) incl. extra_args keys that spell a real flag; observation op `slurm` in the object histories.",
    technique="TLA+ resource algebra checked by TLC; universe export + history trace validation"),
  "C06": dict(
    category="model_checking", design_ref="6 C06",
@@ -161,7 +166,8 @@ CLAIMED = {
         "save/load must raise the same exception. Call side: random DAGs with one failing function, TracePipelineFail.tla.",
    note="Liveness in the code is a 600 s watchdog; in the model a TLC liveness check. Loadability after a failure is only "
         "claimed for file storage (memory storages persist at the end of a run by design)."
-        " Also: two failures on one pipeline object (call and map side; kwargs-dependent exception args; one shared exception instance); the ErrorSnapshot observation is part of the raise event judged by TLC.",
+        " Also: two failures on one pipeline object (call and map side; kwargs-dependent exception args; one shared exception instance); the ErrorSnapshot observation is part of the raise event judged by TLC."
+        " Every fifth call-failure history runs on a pipeline restored from a pickle or deep-copied.",
    technique="TLC-enumerated failure schedules replayed via controllable executor; TLC trace validation; TLC liveness check"),
  "C17": dict(
    category="model_checking", design_ref="6 C17",
@@ -189,7 +195,8 @@ CLAIMED = {
         "(identical), selections are executed. Seeded random pipelines go through the same model.",
    note="xarray's own semantics (merge, sel) are trusted. Don't-cares: per-variable vs per-axis index naming after the merge, "
         "arrays produced by functions without MapSpec, tuple-valued coordinates selected by value."
-        " Also: axes fed by several sources in every order (LawSources, LawSourceOrder).",
+        " Also: axes fed by several sources in every order (LawSources, LawSourceOrder)."
+        " Names are opaque: scoped / dotted names under five kinds of renaming (LawRenamedAnalysis, LawRenamedCoords).",
    technique="TLA+ labelling model checked by TLC; universe export compared against real xarray datasets"),
  "C11": dict(
    category="model_checking", design_ref="6 C11",
@@ -217,7 +224,8 @@ CLAIMED = {
         "validation.",
    note="Exception class is not compared (the property says 'raises'); a different pipeline continuing a folder may be refused."
         " Also: call-style entries (call/run/func) for any requested output (ConstructionVerdictIsEntryBlind), ill-formed call mutants, cyclic examples."
-        " Also: mutants on the sibling output of tuple producers (LawAxesByRole) and ordered default pairs incl. None / 0 (LawDefaultsSymmetric).",
+        " Also: mutants on the sibling output of tuple producers (LawAxesByRole) and ordered default pairs incl. None / 0 (LawDefaultsSymmetric)."
+        " Zips over three and four arrays with any one out of step (LawZipIsAboutAllArrays) and MapSpecs derived by NestedPipeFunc / add_mapspec_axis (LawNestKeepsAxesVerdict, LawAddAxisKeepsConsistency) are part of the mutant universe.",
    technique="TLA+ validity clauses + prepare state machine checked by TLC; mutant universe export compared against the code"),
  "C07": dict(
    category="model_checking", design_ref="6 C07",
@@ -262,7 +270,8 @@ CLAIMED = {
         "with lazy=True, with and without construct_dag, next to an eager twin; TLC validates the recorded histories "
         "(TracePipelineLazy.tla); random DAGs are added.",
    note="Interleaved evaluation of several live handles and lazy + user caches are not driven."
-        " Also: failing functions (fault plans), construct_dag blocks left by exceptions (BlockLeft), pipeline-owned caches inside a block (OwnCacheInBlock).",
+        " Also: failing functions (fault plans), construct_dag blocks left by exceptions (BlockLeft), pipeline-owned caches inside a block (OwnCacheInBlock)."
+        " Lazy pipelines are also obtained by join / | / copy of lazy and eager parts (PipelineIsLazy, InvLazyExactlyWhenAssembledLazy).",
    technique="TLA+ lazy-evaluation state machine checked by TLC; universe export; TLC trace validation"),
  "C10": dict(
    category="model_checking", design_ref="6 C10",
